@@ -3,6 +3,7 @@ import PV.Model.Eval
 import PV.Proofs.OpsSound
 import PV.Proofs.OpsRing
 import PV.Proofs.OpsTable
+import PV.Proofs.FlattenOrder
 /-
   C03 — property theorems.
 
@@ -397,6 +398,73 @@ theorem no_reorder {K : Type u} [Ring K] (ρ : String → K) (p : OpProg) (t : E
     p.build = .ok t → plainRing ρ p = some k → evalRing ρ t = some k :=
   PV.no_reorder ρ p t k
 
+/-- **`flattened_product` does not change the order of the factors** (its docstring: "does not
+require the product to be commutative").  Over an arbitrary — possibly NON-commutative — ring `K`
+and any assignment `ρ`: if the ordered (left-to-right, from `1`) product of the values of `terms`
+is `k`, then `flattened_product(terms)` has the value `k`.  `evalRing` multiplies the children of
+a `Product` left to right, so a factor moved past another one would be visible.  (The zero
+shortcut `return 0` and the dropped ones are covered: a zero factor makes the ordered product `0`
+in every ring.) -/
+theorem flattenedProduct_no_reorder {K : Type u} [Ring K] (ρ : String → K) (terms : List Expr)
+    (k : K) (h : evalRingFold ρ (· * ·) 1 terms = some k) :
+    evalRing ρ (flattenedProduct terms) = some k :=
+  flattenedProduct_ring ρ h
+
+/-- the `x, a*b, c` case: the tree is `x*a*b*c` — the spliced factors keep their place … -/
+example : flattenedProduct [.var "x", .nary .prod [.var "a", .var "b"], .var "c"]
+    = .nary .prod [.var "x", .var "a", .var "b", .var "c"] := rfl
+/-- … and in every ring its value is the ordered product `x * (a * b) * c` -/
+example {K : Type u} [Ring K] (ρ : String → K) :
+    evalRing ρ (flattenedProduct [.var "x", .nary .prod [.var "a", .var "b"], .var "c"])
+      = some (ρ "x" * (ρ "a" * ρ "b") * ρ "c") :=
+  flattenedProduct_no_reorder ρ _ _ (by simp [evalRingFold, evalRing])
+
+/-- **`flattened_product`, syntactically: the factors of the result are the factors of the terms
+IN ORDER.**  `prodFactorsL terms` (PV/Proofs/FlattenOrder.lean) is the queue-free description: go
+through `terms` left to right, descend into a nested (non-zero) `Product` in place, drop ones,
+`none` as soon as a zero is met.  The result is `0` / `1` / the single factor / `Product` of
+exactly that list. -/
+theorem flattenedProduct_in_order (terms : List Expr) :
+    flattenedProduct terms =
+      match prodFactorsL terms with
+      | none => zero
+      | some [] => one
+      | some [x] => x
+      | some xs => .nary .prod xs :=
+  flattenedProduct_eq_factors terms
+
+example : prodFactorsL [.var "x", .nary .prod [.var "a", .const (.int 1), .var "b"], .var "c"]
+    = some [.var "x", .var "a", .var "b", .var "c"] := rfl
+example : prodFactorsL [.var "x", .nary .prod [.var "a", .var "b"], .const (.int 0)] = none := rfl
+
+/-- **`flattened_sum` keeps the value in every ring** (ordered sum from `0`; addition commutes in
+a ring, so this alone does not see the order — `flattenedSum_in_order` does). -/
+theorem flattenedSum_no_reorder {K : Type u} [Ring K] (ρ : String → K) (terms : List Expr)
+    (k : K) (h : evalRingFold ρ (· + ·) 0 terms = some k) :
+    evalRing ρ (flattenedSum terms) = some k :=
+  flattenedSum_ring ρ h
+
+example {K : Type u} [Ring K] (ρ : String → K) :
+    evalRing ρ (flattenedSum [.var "x", .nary .sum [.var "a", .var "b"], .var "c"])
+      = some (ρ "x" + (ρ "a" + ρ "b") + ρ "c") :=
+  flattenedSum_no_reorder ρ _ _ (by simp [evalRingFold, evalRing])
+
+/-- **`flattened_sum`: the terms of the result are the non-zero terms of the arguments IN ORDER**
+(`sumTermsL`: left to right, a nested non-zero `Sum` taken apart in place, zeros dropped) — the
+form of "does not reorder" that is meaningful for a `+` that need not commute. -/
+theorem flattenedSum_in_order (terms : List Expr) :
+    flattenedSum terms =
+      match sumTermsL terms with
+      | [] => zero
+      | [x] => x
+      | xs => .nary .sum xs :=
+  flattenedSum_eq_terms terms
+
+example : flattenedSum [.var "x", .nary .sum [.var "a", .var "b"], .var "c"]
+    = .nary .sum [.var "x", .var "a", .var "b", .var "c"] := rfl
+example : sumTermsL [.var "x", .nary .sum [.var "a", .const (.int 0), .var "b"], .var "c"]
+    = [.var "x", .var "a", .var "b", .var "c"] := rfl
+
 /-! ## 6. The model is what the current source says (T-gen) -/
 
 open PV.Generated in
@@ -442,7 +510,8 @@ theorem build_eq_table_current (p : OpProg) : p.build = p.c03BuildByTable c03Tab
 open PV.Generated in
 /-- `flattened_sum` / `flattened_product`: the hand-written loops are the generic loop
 `c03Flatten` run on the records read from the source (zero test `continue` / `return 0`, the
-`is_zero(item - 1)` skip, the flattened class, the empty result) -/
+`is_zero(item - 1)` skip, the flattened class, WHERE the children of a nested node re-enter the
+queue — `spliceFront`: in place, `queue[0:0] = item.children` —, the empty result) -/
 theorem flatten_eq_table_current (terms : List Expr) :
     flattenedSum terms = c03Flatten c03Preds c03FlatSum terms ∧
     flattenedProduct terms = c03Flatten c03Preds c03FlatProduct terms :=
